@@ -201,10 +201,20 @@ def _fork_case(kind, order, actions):
         socks = []
         import threading
 
+        parent = os.getpid()
+        marker = os.path.join(root, "..", "escaped-%d" % parent)
+
         def accept_one(pending):
             """accept + fork/thread.  The WORKER blocks peeking at the first byte; the accept loop
             itself must come back at once even though the client has not said anything yet."""
-            t = threading.Thread(target=server.handle_request, daemon=True)
+            def target():
+                server.handle_request()
+                if os.getpid() != parent:
+                    with open(marker, "a") as f:  # a forked worker came back out of process_request()
+                        f.write("x")
+                    os._exit(0)
+
+            t = threading.Thread(target=target, daemon=True)
             t.start()
             t.join(3)
             if t.is_alive():
@@ -260,6 +270,9 @@ def _fork_case(kind, order, actions):
                 if not server.active_children:
                     break
                 time.sleep(0.01)
+            if os.path.exists(marker):
+                bad.append(("worker-escaped", "a forked worker returned from process_request() into the accept loop instead of exiting"))
+                os.unlink(marker)
             if server.active_children:
                 bad.append(("not-reaped", "children still in the table after the burst: %r" % (server.active_children,)))
     finally:
@@ -292,8 +305,20 @@ def _tls_burst(kind):
         server.daemon_threads = True
     bad = []
     try:
+        parent = os.getpid()
+        marker = os.path.join(root, "..", "escaped-%d" % parent)
+
+        def accept_target():
+            server.handle_request()
+            if os.getpid() != parent:
+                # we are a forked worker that came back out of process_request(): in a real
+                # server it would now be sitting in the accept loop next to its parent
+                with open(marker, "a") as f:
+                    f.write("x")
+                os._exit(0)
+
         def accept():
-            t = threading.Thread(target=server.handle_request, daemon=True)
+            t = threading.Thread(target=accept_target, daemon=True)
             t.start()
             t.join(5)
             return not t.is_alive()
@@ -339,6 +364,9 @@ def _tls_burst(kind):
                 if not server.active_children:
                     break
                 time.sleep(0.02)
+            if os.path.exists(marker):
+                bad.append(("worker-escaped", "a forked worker returned from process_request() into the accept loop instead of exiting"))
+                os.unlink(marker)
             if server.active_children:
                 bad.append(("not-reaped", "after a failed TLS handshake a worker process is still alive: %r" % (server.active_children,)))
                 for pid in list(server.active_children):
